@@ -28,7 +28,7 @@ def check(run, tier, seed, replay=None, only=None):
     for s in range(nsh):
         stages.append(("multi8-%d" % s, ["--mode", "multi8", "--k", 8 if quick else 16, "--sets", 0 if quick else 1,
                                          "--seed", seed * 100 + s, "--shard", s, "--nshards", nsh]))
-    for s in range(2 if quick else 6):
+    for s in range(4 if quick else 8):
         stages.append(("exact-%d" % s, ["--mode", "exact", "--k", 7 if quick else 10, "--sets", 1, "--seed", seed * 100 + 30 + s,
                                         "--proc", ["decim", "interp", "rate", "resampler"][s % 4]]))
     for s in range(2 if quick else 6):
